@@ -263,7 +263,44 @@ pub fn run(tier: Tier) -> i32 {
                 ctx.nontriv(1);
                 check_file(&ctx, &f, &format!("xz block of {} bytes in {} chunks without dictionary reset, dictionary property byte {}", w.expect.len(), cs.len(), prop));
             });
-            ctx.scope_done(name, counts.len() as u64 * 3 + bigs.len() as u64, t0, "block counts around 2^7 (2^8, 2^14, > 64 KiB of index records); blocks far larger than their dictionary");
+            // every sequence of <= 3 blocks over content sizes on both sides of 64 KiB (the order of blocks in the output
+            // is the order in the file, whatever their sizes)
+            let szs: Vec<usize> = vec![0, 5, 65535, 65536, 70000];
+            let mut seqs: Vec<Vec<usize>> = Vec::new();
+            for l in 1..=3usize {
+                let mut idx = vec![0usize; l];
+                loop {
+                    seqs.push(idx.iter().map(|k| szs[*k]).collect());
+                    let mut p = 0;
+                    while p < l {
+                        idx[p] += 1;
+                        if idx[p] < szs.len() {
+                            break;
+                        }
+                        idx[p] = 0;
+                        p += 1;
+                    }
+                    if p == l {
+                        break;
+                    }
+                }
+            }
+            par_for(seqs.len() as u64, |i| {
+                let sq = &seqs[i as usize];
+                let blocks: Vec<Block> = sq
+                    .iter()
+                    .enumerate()
+                    .map(|(b, n)| {
+                        let (p, plain) = stored_payload(*n, b * 37 + 11);
+                        Block { payload: p, plain, with_csize: (i + b as u64) % 2 == 0, with_usize: (i + b as u64) % 3 == 0, ..Default::default() }
+                    })
+                    .collect();
+                let f = XzFile { check_id: [1u8, 4, 0][i as usize % 3], blocks, ..Default::default() };
+                ctx.eval(1);
+                ctx.nontriv(1);
+                check_file(&ctx, &f, &format!("xz file with blocks of {:?} content bytes", sq));
+            });
+            ctx.scope_done(name, counts.len() as u64 * 3 + bigs.len() as u64 + seqs.len() as u64, t0, "block counts around 2^7 (2^8, 2^14, > 64 KiB of index records); blocks far larger than their dictionary; every sequence of <= 3 blocks over sizes {0, 5, 65535, 65536, 70000}");
         }
     }
     // ---------------------------------------------------------------- every legal LZMA2 dictionary-size property byte
@@ -312,7 +349,7 @@ pub fn run(tier: Tier) -> i32 {
         let name = "multibyte-widths";
         if ctx.may_start(name) {
             let t0 = Instant::now();
-            let mut sizes: Vec<usize> = vec![1, 127, 128, 16383, 16384, (1 << 21) - 1, 1 << 21, (1 << 21) + 1];
+            let mut sizes: Vec<usize> = vec![1, 127, 128, 16383, 16384, (1 << 21) - 1, 1 << 21, (1 << 21) + 1, (1 << 25) + 1];
             if tier == Tier::Thorough {
                 sizes.push((1 << 28) - 1);
                 sizes.push(1 << 28);
